@@ -1281,9 +1281,14 @@ where
             resent = resent.saturating_add(1);
             true // Keep in store
         });
-        // Every re-sent exchange occupies one slot of the peer's Receive Maximum
+        // Every re-sent exchange occupies one slot of the peer's Receive Maximum, and so does
+        // a QoS 2 exchange that still has to send its PUBREL (the peer holds it until PUBCOMP)
         if self.publish_send_max.is_some() {
-            self.publish_send_count = self.publish_send_count.saturating_add(resent);
+            let pending = u16::try_from(self.pid_pubrel_pending.len()).unwrap_or(u16::MAX);
+            self.publish_send_count = self
+                .publish_send_count
+                .saturating_add(resent)
+                .saturating_add(pending);
         }
 
         events
